@@ -7,10 +7,18 @@ import SoyVerif.Lemmas.LexerStates
 namespace SoyVerif.Model.Lex
 open SoyVerif SoyVerif.Model
 
+/-- `emitOK` for the identifier kinds of lexIdent -/
+macro "eok2" : tactic => `(tactic|
+  first
+  | exact emitOK_safe rfl rfl
+  | (split <;> refine ⟨fun h => ?_, fun h => ?_⟩ <;> first | exact absurd h (by decide) | lx)
+  | (refine ⟨fun h => ?_, fun h => ?_⟩ <;> first | exact absurd h (by decide) | lx))
+
 /-! ### lexIdent -/
 
-theorem lexIdentRest_sat {n : Int} {l0 l : Lexer} {ty : ItemType} (hn : l.len = n) (h0 : 0 ≤ l.start)
-    (h1 : l.start ≤ l0.pos) (h2 : l.pos ≤ n) (hle : l0.pos ≤ l.pos) (hadv : l0.pos < n → l0.pos < l.pos) :
+theorem lexIdentRest_sat {n : Int} {l0 l : Lexer} {ty : ItemType} (hn : l.len = n ∧ (l.mp : Int) ≤ n ∧ 0 ≤ l.tagStart ∧ l.tagStart ≤ n ∧ l.bad = 0) (h0 : 0 ≤ l.start)
+    (h1 : l.start ≤ l0.pos) (h2 : l.pos ≤ n) (hle : l0.pos ≤ l.pos) (hadv : l0.pos < n → l0.pos < l.pos)
+    (hty : emitOK ty (l.pos - l.start)) :
     Sat (lexIdentRest l ty) (Post n .ident l0) := by
   unfold lexIdentRest
   apply Sat.bind
@@ -33,10 +41,11 @@ theorem lexIdentRest_sat {n : Int} {l0 l : Lexer} {ty : ItemType} (hn : l.len = 
     · apply Sat.bind
       apply sliceOf_sat (by lx) (by lx) (by lx)
       intro _ _
-      first | exact errorf_sat | exact errorfAt_sat
+      first | exact errorf_sat (by lx) | exact errorfAt_sat (by lx)
     · unfold emitInside
       apply Sat.bind
-      em l2 hl2 hp2 hs2 hw2
+      apply emit_sat (by lx) (by lx) (by lx) (emitOK_mono hty (by lx))
+      intro l2 hl2 hp2 hs2 hw2
       fin
 
 theorem lexIdent_ok {n : Int} {l : Lexer} (hg : Good n l) :
@@ -46,57 +55,60 @@ theorem lexIdent_ok {n : Int} {l : Lexer} (hg : Good n l) :
   nx r l1 hl1 hs1 hf1
   split
   · nx d l2 hl2 hs2 hf2
-    exact lexIdentRest_sat (by lx) (by lx) (by lx) (by lx) (by lx) (by lx)
+    exact lexIdentRest_sat (by lx) (by lx) (by lx) (by lx) (by lx) (by lx) (by eok2)
   split
   · apply Sat.bind
     apply peek_sat (by lx)
     intro p l2 hl2 hs2 hp2 hf2
     dsimp only
     split
-    · first | exact errorf_sat | exact errorfAt_sat
-    · exact lexIdentRest_sat (by lx) (by lx) (by lx) (by lx) (by lx) (by lx)
+    · first | exact errorf_sat (by lx) | exact errorfAt_sat (by lx)
+    · exact lexIdentRest_sat (by lx) (by lx) (by lx) (by lx) (by lx) (by lx) (by eok2)
   split
-  · exact lexIdentRest_sat (by lx) (by lx) (by lx) (by lx) (by lx) (by lx)
+  · exact lexIdentRest_sat (by lx) (by lx) (by lx) (by lx) (by lx) (by lx) (by eok2)
   split
-  · exact lexIdentRest_sat (by lx) (by lx) (by lx) (by lx) (by lx) (by lx)
+  · exact lexIdentRest_sat (by lx) (by lx) (by lx) (by lx) (by lx) (by lx) (by eok2)
   split
   · nx dot l2 hl2 hs2 hf2
     split
-    · first | exact errorf_sat | exact errorfAt_sat
+    · first | exact errorf_sat (by lx) | exact errorfAt_sat (by lx)
     · nx d l3 hl3 hs3 hf3
-      exact lexIdentRest_sat (by lx) (by lx) (by lx) (by lx) (by lx) (by lx)
-  · exact lexIdentRest_sat (by lx) (by lx) (by lx) (by lx) (by lx) (by lx)
+      exact lexIdentRest_sat (by lx) (by lx) (by lx) (by lx) (by lx) (by lx) (by eok2)
+  · exact lexIdentRest_sat (by lx) (by lx) (by lx) (by lx) (by lx) (by lx) (by eok2)
 
 /-! ### `∃`-forms of the primitive rules, for the loops defined by `match h : … with` -/
 
 theorem next_ex {l : Lexer} (h0 : 0 ≤ l.pos) :
-    ∃ r l', l.next = some (r, l') ∧ l'.len = l.len ∧ l'.start = l.start ∧ NextFacts l r l' := by
-  obtain ⟨⟨r, l'⟩, h, f⟩ := next_sat (Q := fun x => x.2.len = l.len ∧ x.2.start = l.start ∧ NextFacts l x.1 x.2)
+    ∃ r l', l.next = some (r, l') ∧ (l'.len = l.len ∧ l'.mp = l.mp ∧ l'.tagStart = l.tagStart ∧ l'.bad = l.bad) ∧ l'.start = l.start ∧ NextFacts l r l' := by
+  obtain ⟨⟨r, l'⟩, h, f⟩ := next_sat (Q := fun x => (x.2.len = l.len ∧ x.2.mp = l.mp ∧ x.2.tagStart = l.tagStart ∧ x.2.bad = l.bad) ∧ x.2.start = l.start ∧ NextFacts l x.1 x.2)
     h0 (fun _ _ a b c => ⟨a, b, c⟩)
   exact ⟨r, l', h, f⟩
 
 /-- facts about a `next` whose result is already known (after `split` on `match h : l.next with`) -/
 theorem next_facts {l l' : Lexer} {r : Int} (h : l.next = some (r, l')) (h0 : 0 ≤ l.pos) :
-    l'.len = l.len ∧ l'.start = l.start ∧ NextFacts l r l' := by
+    (l'.len = l.len ∧ l'.mp = l.mp ∧ l'.tagStart = l.tagStart ∧ l'.bad = l.bad) ∧ l'.start = l.start ∧ NextFacts l r l' := by
   obtain ⟨r2, l2, h2, f⟩ := next_ex h0
   rw [h] at h2
   simp only [Option.some.injEq, Prod.mk.injEq] at h2
   obtain ⟨rfl, rfl⟩ := h2
   exact f
 
-theorem emit_ex {l : Lexer} (t : ItemType) (h0 : 0 ≤ l.start) (h1 : l.start ≤ l.pos) (h2 : l.pos ≤ l.len) :
-    ∃ l', l.emit t = some l' ∧ l'.len = l.len ∧ l'.pos = l.pos ∧ l'.start = l.pos ∧ l'.width = l.width :=
-  emit_sat h0 h1 h2 (fun _ a b c d => ⟨a, b, c, d⟩)
+theorem emit_ex {l : Lexer} (t : ItemType) (h0 : 0 ≤ l.start) (h1 : l.start ≤ l.pos) (h2 : l.pos ≤ l.len)
+    (hok : emitOK t (l.pos - l.start) := by exact emitOK_safe rfl rfl) :
+    ∃ l', l.emit t = some l' ∧ (l'.len = l.len ∧ l.mp ≤ l'.mp ∧ ((l'.mp : Int) = l.mp ∨ (l'.mp : Int) = l.pos) ∧ l'.tagStart = l.tagStart ∧ l'.bad = l.bad) ∧
+      l'.pos = l.pos ∧ l'.start = l.pos ∧ l'.width = l.width :=
+  emit_sat h0 h1 h2 hok (fun _ a b c d => ⟨a, b, c, d⟩)
 
 theorem maybeEmitText_ex {l : Lexer} {k : Int} (hs0 : 0 ≤ l.start) (hk : 0 ≤ k) (hp : l.pos - k ≤ l.len) :
-    ∃ l', maybeEmitText l k = some l' ∧ l'.len = l.len ∧ l'.pos = l.pos ∧ l'.width = l.width ∧
+    ∃ l', maybeEmitText l k = some l' ∧ (l'.len = l.len ∧ l.mp ≤ l'.mp ∧ ((l'.mp : Int) = l.mp ∨ (l'.mp : Int) = l.pos - k) ∧ l'.tagStart = l.tagStart ∧ l'.bad = l.bad) ∧
+      l'.pos = l.pos ∧ l'.width = l.width ∧
       (l'.start = l.start ∨ (l.start < l.pos - k ∧ l'.start = l.pos - k)) :=
   maybeEmitText_sat hs0 hk hp (fun _ a b c d => ⟨a, b, c, d⟩)
 
 /-! ### stringLexer -/
 
 theorem lexString_sat {n : Int} {l0 : Lexer} (q : Int) : ∀ (k : Nat) (l : Lexer), l.rem = k →
-    l.len = n → 0 ≤ l.start → l.start ≤ l.pos → l.pos ≤ n → l0.pos ≤ l.pos →
+    (l.len = n ∧ (l.mp : Int) ≤ n ∧ 0 ≤ l.tagStart ∧ l.tagStart ≤ n ∧ l.bad = 0) → 0 ≤ l.start → l.start ≤ l.pos → l.pos ≤ n → l0.pos ≤ l.pos →
     Sat (lexString q l) (Post n (.str q) l0) := by
   intro k
   induction k using Nat.strongRecOn with
@@ -111,7 +123,7 @@ theorem lexString_sat {n : Int} {l0 : Lexer} (q : Int) : ∀ (k : Nat) (l : Lexe
       obtain ⟨hl1, hs1, hf1⟩ := next_facts hnx (by lx)
       unfold NextFacts at hf1
       split
-      · first | exact errorf_sat | exact errorfAt_sat
+      · first | exact errorf_sat (by lx) | exact errorfAt_sat (by lx)
       split
       · split
         · rename_i heq
@@ -138,10 +150,10 @@ theorem lexString_ok {n : Int} {l : Lexer} {q : Int} (hg : Good n l) :
 
 /-- what `scanNumber` and its parts return, relative to the lexer `l0` at its start -/
 def NumPost (n : Int) (l0 : Lexer) (adv : Bool) (res : ItemType × Bool × Lexer) : Prop :=
-  res.2.2.len = n ∧ res.2.2.start = l0.start ∧ l0.pos ≤ res.2.2.pos ∧ res.2.2.pos ≤ n ∧
-    (adv = true ∨ res.2.1 = false ∨ l0.pos < res.2.2.pos)
+  (res.2.2.len = n ∧ (res.2.2.mp : Int) ≤ n ∧ 0 ≤ res.2.2.tagStart ∧ res.2.2.tagStart ≤ n ∧ res.2.2.bad = 0) ∧ res.2.2.start = l0.start ∧ l0.pos ≤ res.2.2.pos ∧ res.2.2.pos ≤ n ∧
+    (adv = true ∨ res.2.1 = false ∨ l0.pos < res.2.2.pos) ∧ (res.1 = .tInteger ∨ res.1 = .tFloat)
 
-theorem scanNumberEnd_sat {n : Int} {l0 l : Lexer} {typ : ItemType} {adv : Bool} (hn : l.len = n)
+theorem scanNumberEnd_sat {n : Int} {l0 l : Lexer} {typ : ItemType} {adv : Bool} (htyp : typ = .tInteger ∨ typ = .tFloat) (hn : l.len = n ∧ (l.mp : Int) ≤ n ∧ 0 ≤ l.tagStart ∧ l.tagStart ≤ n ∧ l.bad = 0)
     (hs : l.start = l0.start) (h0 : 0 ≤ l0.pos) (hle : l0.pos ≤ l.pos) (h2 : l.pos ≤ n)
     (hadv : adv = true ∨ l0.pos < l.pos) :
     Sat (scanNumberEnd l typ) (NumPost n l0 adv) := by
@@ -155,16 +167,16 @@ theorem scanNumberEnd_sat {n : Int} {l0 l : Lexer} {typ : ItemType} {adv : Bool}
     apply Sat.ret
     unfold NumPost
     dsimp only
-    refine ⟨by lx, by lx, by lx, by lx, Or.inr (Or.inl rfl)⟩
+    refine ⟨by lx, by lx, by lx, by lx, Or.inr (Or.inl rfl), htyp⟩
   · apply Sat.ret
     unfold NumPost
     dsimp only
-    refine ⟨by lx, by lx, by lx, by lx, ?_⟩
+    refine ⟨by lx, by lx, by lx, by lx, ?_, htyp⟩
     rcases hadv with h | h
     · exact Or.inl h
     · exact Or.inr (Or.inr (by lx))
 
-theorem scanNumberExp_sat {n : Int} {l0 l : Lexer} {typ : ItemType} {adv : Bool} (hn : l.len = n)
+theorem scanNumberExp_sat {n : Int} {l0 l : Lexer} {typ : ItemType} {adv : Bool} (htyp : typ = .tInteger ∨ typ = .tFloat) (hn : l.len = n ∧ (l.mp : Int) ≤ n ∧ 0 ≤ l.tagStart ∧ l.tagStart ≤ n ∧ l.bad = 0)
     (hs : l.start = l0.start) (h0 : 0 ≤ l0.pos) (hle : l0.pos ≤ l.pos) (h2 : l.pos ≤ n)
     (hadv : adv = true ∨ l0.pos < l.pos) :
     Sat (scanNumberExp l typ) (NumPost n l0 adv) := by
@@ -186,21 +198,21 @@ theorem scanNumberExp_sat {n : Int} {l0 l : Lexer} {typ : ItemType} {adv : Bool}
     · apply Sat.ret
       unfold NumPost
       dsimp only
-      refine ⟨by lx, by lx, by lx, by lx, Or.inr (Or.inl rfl)⟩
-    · apply scanNumberEnd_sat (by lx) (by lx) (by lx) (by lx) (by lx)
+      refine ⟨by lx, by lx, by lx, by lx, Or.inr (Or.inl rfl), htyp⟩
+    · apply scanNumberEnd_sat (by first | exact Or.inl rfl | exact Or.inr rfl | assumption) (by lx) (by lx) (by lx) (by lx) (by lx)
       rcases hadv with h | h
       · exact Or.inl h
       · exact Or.inr (by lx)
-  · apply scanNumberEnd_sat (by lx) (by lx) (by lx) (by lx) (by lx)
+  · apply scanNumberEnd_sat (by first | exact Or.inl rfl | exact Or.inr rfl | assumption) (by lx) (by lx) (by lx) (by lx) (by lx)
     rcases hadv with h | h
     · exact Or.inl h
     · exact Or.inr (by lx)
 
-theorem NumPost.fail {n : Int} {l0 l : Lexer} {typ : ItemType} (hn : l.len = n)
+theorem NumPost.fail {n : Int} {l0 l : Lexer} {typ : ItemType} (htyp : typ = .tInteger ∨ typ = .tFloat) (hn : l.len = n ∧ (l.mp : Int) ≤ n ∧ 0 ≤ l.tagStart ∧ l.tagStart ≤ n ∧ l.bad = 0)
     (hs : l.start = l0.start) (hle : l0.pos ≤ l.pos) (h2 : l.pos ≤ n) :
     Sat (pure (typ, false, l) : Option (ItemType × Bool × Lexer)) (NumPost n l0 false) := by
   apply Sat.ret
-  exact ⟨hn, hs, hle, h2, Or.inr (Or.inl rfl)⟩
+  exact ⟨hn, hs, hle, h2, Or.inr (Or.inl rfl), htyp⟩
 
 theorem scanNumber_sat {n : Int} {l : Lexer} (hg : Good n l) :
     Sat (scanNumber l) (NumPost n l false) := by
@@ -225,7 +237,7 @@ theorem scanNumber_sat {n : Int} {l : Lexer} (hg : Good n l) :
   intro isHex _
   split
   · split
-    · exact NumPost.fail (by lx) (by lx) (by lx) (by lx)
+    · exact NumPost.fail (by first | exact Or.inl rfl | exact Or.inr rfl | assumption) (by lx) (by lx) (by lx) (by lx)
     · apply Sat.bind
       apply acceptRun_sat (by lx) (by lx)
       intro _ l2 hl2 hs2 hp2 hle2 _
@@ -235,7 +247,7 @@ theorem scanNumber_sat {n : Int} {l : Lexer} (hg : Good n l) :
       intro ok l3 hl3 hs3 hp3 hle3 hok
       dsimp only
       split
-      · exact NumPost.fail (by lx) (by lx) (by lx) (by lx)
+      · exact NumPost.fail (by first | exact Or.inl rfl | exact Or.inr rfl | assumption) (by lx) (by lx) (by lx) (by lx)
       · rename_i hok'
         have := hok (by simpa using hok')
         apply Sat.bind
@@ -243,14 +255,14 @@ theorem scanNumber_sat {n : Int} {l : Lexer} (hg : Good n l) :
         intro dot l4 hl4 hs4 hp4 hle4 _
         dsimp only
         split
-        · exact NumPost.fail (by lx) (by lx) (by lx) (by lx)
-        · exact scanNumberEnd_sat (by lx) (by lx) (by lx) (by lx) (by lx) (Or.inr (by lx))
+        · exact NumPost.fail (by first | exact Or.inl rfl | exact Or.inr rfl | assumption) (by lx) (by lx) (by lx) (by lx)
+        · exact scanNumberEnd_sat (by first | exact Or.inl rfl | exact Or.inr rfl | assumption) (by lx) (by lx) (by lx) (by lx) (by lx) (Or.inr (by lx))
   · apply Sat.bind
     apply acceptRun_sat (by lx) (by lx)
     intro ok l2 hl2 hs2 hp2 hle2 hok
     dsimp only
     split
-    · exact NumPost.fail (by lx) (by lx) (by lx) (by lx)
+    · exact NumPost.fail (by first | exact Or.inl rfl | exact Or.inr rfl | assumption) (by lx) (by lx) (by lx) (by lx)
     · rename_i hok'
       have hadv := hok (by simpa using hok')
       apply Sat.bind
@@ -263,8 +275,8 @@ theorem scanNumber_sat {n : Int} {l : Lexer} (hg : Good n l) :
         intro ok2 l4 hl4 hs4 hp4 hle4 _
         dsimp only
         split
-        · exact NumPost.fail (by lx) (by lx) (by lx) (by lx)
-        · exact scanNumberExp_sat (by lx) (by lx) (by lx) (by lx) (by lx) (Or.inr (by lx))
+        · exact NumPost.fail (by first | exact Or.inl rfl | exact Or.inr rfl | assumption) (by lx) (by lx) (by lx) (by lx)
+        · exact scanNumberExp_sat (by first | exact Or.inl rfl | exact Or.inr rfl | assumption) (by lx) (by lx) (by lx) (by lx) (by lx) (Or.inr (by lx))
       · apply Sat.bind
         have hbad : Sat (if (!hasSign) = true then do
               let b ← indexOf l3.input l3.start
@@ -287,8 +299,8 @@ theorem scanNumber_sat {n : Int} {l : Lexer} (hg : Good n l) :
         apply hbad.mono
         intro bad _
         split
-        · exact NumPost.fail (by lx) (by lx) (by lx) (by lx)
-        · exact scanNumberExp_sat (by lx) (by lx) (by lx) (by lx) (by lx) (Or.inr (by lx))
+        · exact NumPost.fail (by first | exact Or.inl rfl | exact Or.inr rfl | assumption) (by lx) (by lx) (by lx) (by lx)
+        · exact scanNumberExp_sat (by first | exact Or.inl rfl | exact Or.inr rfl | assumption) (by lx) (by lx) (by lx) (by lx) (by lx) (Or.inr (by lx))
 
 theorem lexNumber_ok {n : Int} {l : Lexer} (hg : Good n l) :
     Sat (lexNumber l) (Post n .number l) := by
@@ -300,12 +312,12 @@ theorem lexNumber_ok {n : Int} {l : Lexer} (hg : Good n l) :
   intro ⟨typ, ok, l1⟩ hp
   unfold NumPost at hp
   dsimp only at hp ⊢
-  obtain ⟨hl1, hs1, hle1, hn1, hadv⟩ := hp
+  obtain ⟨hl1, hs1, hle1, hn1, hadv, htyp⟩ := hp
   split
   · apply Sat.bind
     apply sliceOf_sat (by lx) (by lx) (by lx)
     intro _ _
-    first | exact errorf_sat | exact errorfAt_sat
+    first | exact errorf_sat (by lx) | exact errorfAt_sat (by lx)
   · rename_i hok
     have hok' : ok = true := by simpa using hok
     have : l.pos < l1.pos := by
@@ -314,13 +326,14 @@ theorem lexNumber_ok {n : Int} {l : Lexer} (hg : Good n l) :
       · rw [hok'] at h; exact absurd h (by simp)
       · exact h
     exact emitInside_sat (by lx) (by lx) (by lx) (by lx) (by lx)
+      (by rcases htyp with h | h <;> (subst h; exact emitOK_safe rfl rfl))
 
 
 /-! ### lexHeaderParam -/
 
 theorem headerTypeLoop_sat {n : Int} {Q : Int × Lexer × Int → Prop} (l0 : Lexer) : ∀ (k : Nat) (l : Lexer) (lns : Int),
-    l.rem = k → l.len = n → 0 ≤ l.pos → l.pos ≤ n → l0.pos ≤ lns → lns ≤ l.pos →
-    (∀ ch l' lns', l'.len = n → l'.start = l.start → l0.pos ≤ lns' → lns' ≤ l'.pos → l'.pos ≤ n → Q (ch, l', lns')) →
+    l.rem = k → (l.len = n ∧ (l.mp : Int) ≤ n ∧ 0 ≤ l.tagStart ∧ l.tagStart ≤ n ∧ l.bad = 0) → 0 ≤ l.pos → l.pos ≤ n → l0.pos ≤ lns → lns ≤ l.pos →
+    (∀ ch l' lns', (l'.len = n ∧ (l'.mp : Int) ≤ n ∧ 0 ≤ l'.tagStart ∧ l'.tagStart ≤ n ∧ l'.bad = 0) → l'.start = l.start → l0.pos ≤ lns' → lns' ≤ l'.pos → l'.pos ≤ n → Q (ch, l', lns')) →
     Sat (headerTypeLoop l lns) Q := by
   intro k
   induction k using Nat.strongRecOn with
@@ -351,7 +364,7 @@ theorem lexHeaderParam_ok {n : Int} {l : Lexer} (hg : Good n l) :
   apply hasPrefixAt_sat (by lx) (by lx)
   intro pre hpre
   split
-  · first | exact errorf_sat | exact errorfAt_sat
+  · first | exact errorf_sat (by lx) | exact errorfAt_sat (by lx)
   · rename_i hp
     have hp' : pre = true := by simpa using hp
     have hlen := hpre hp'
@@ -359,7 +372,7 @@ theorem lexHeaderParam_ok {n : Int} {l : Lexer} (hg : Good n l) :
     nx q l1 hl1 hs1 hf1
     apply Sat.bind
     have hem : Sat (if q = 63 then l1.emit .tHeaderOptionalParam else l1.backup.emit .tHeaderParam)
-        (fun l2 => l2.len = n ∧ l2.start = l2.pos ∧ l.pos + 5 ≤ l2.pos ∧ l2.pos ≤ n) := by
+        (fun l2 => (l2.len = n ∧ (l2.mp : Int) ≤ n ∧ 0 ≤ l2.tagStart ∧ l2.tagStart ≤ n ∧ l2.bad = 0) ∧ l2.start = l2.pos ∧ l.pos + 5 ≤ l2.pos ∧ l2.pos ≤ n) := by
       split
       · em l2 hl2 hp2 hs2 hw2
         exact ⟨by lx, by lx, by lx, by lx⟩
@@ -382,18 +395,20 @@ theorem lexHeaderParam_ok {n : Int} {l : Lexer} (hg : Good n l) :
     intro l6 hl6 hs6 hp6 hn6
     nx c l7 hl7 hs7 hf7
     split
-    · first | exact errorf_sat | exact errorfAt_sat
+    · first | exact errorf_sat (by lx) | exact errorfAt_sat (by lx)
     · apply Sat.bind
       em l8 hl8 hp8 hs8 hw8
       apply Sat.bind
       apply skipSpace_sat (by lx) (by lx)
       intro l9 hl9 hs9 hp9 hn9
       apply Sat.bind
-      apply headerTypeLoop_sat l9 l9.rem l9 l9.pos rfl (by lx) (by lx) (by lx) (by lx) (by lx)
+      have t1 : l8.len = n := by lx
+      have t2 : l9.len = n := by lx
+      apply headerTypeLoop_sat l9 l9.rem l9 l9.pos rfl ⟨by lx, by lx, by lx, by lx⟩ (by lx) (by lx) (by lx) (by lx)
       intro ch l10 lns hl10 hs10 hlo hhi hn10
       dsimp only
       split
-      · first | exact errorf_sat | exact errorfAt_sat
+      · first | exact errorf_sat (by lx) | exact errorfAt_sat (by lx)
       · apply Sat.bind
         em l11 hl11 hp11 hs11 hw11
         apply Sat.bind
@@ -414,7 +429,7 @@ theorem lexCss_ok {n : Int} {l : Lexer} (hg : Good n l) :
   unfold ScanFacts at hf2
   dsimp only
   split
-  · first | exact errorf_sat | exact errorfAt_sat
+  · first | exact errorf_sat (by lx) | exact errorfAt_sat (by lx)
   · rename_i hne
     simp only [eof] at hne
     apply Sat.bind
@@ -425,7 +440,7 @@ theorem lexCss_ok {n : Int} {l : Lexer} (hg : Good n l) :
     intro bad l5 hl5 hs5 hp5 hn5
     dsimp only
     split
-    · first | exact errorf_sat | exact errorfAt_sat
+    · first | exact errorf_sat (by lx) | exact errorfAt_sat (by lx)
     · apply Sat.bind
       em l6 hl6 hp6 hs6 hw6
       fin
@@ -442,7 +457,7 @@ theorem lexLiteral_ok {n : Int} {l : Lexer} (hg : Good n l) :
   unfold ScanFacts at hf1
   dsimp only
   split
-  · first | exact errorf_sat | exact errorfAt_sat
+  · first | exact errorf_sat (by lx) | exact errorfAt_sat (by lx)
   · rename_i hch
     have hch' : ch = 125 := by simpa using hch
     apply Sat.bind
@@ -450,7 +465,7 @@ theorem lexLiteral_ok {n : Int} {l : Lexer} (hg : Good n l) :
     intro bad l2 hl2 hs2 hp2 hn2
     dsimp only
     split
-    · first | exact errorf_sat | exact errorfAt_sat
+    · first | exact errorf_sat (by lx) | exact errorfAt_sat (by lx)
     · apply Sat.bind
       em l3 hl3 hp3 hs3 hw3
       apply Sat.bind
@@ -458,7 +473,7 @@ theorem lexLiteral_ok {n : Int} {l : Lexer} (hg : Good n l) :
       apply sliceOf_sat (by lx) (by lx) (by lx)
       intro rest hrest
       split
-      · first | exact errorf_sat | exact errorfAt_sat
+      · first | exact errorf_sat (by lx) | exact errorfAt_sat (by lx)
       · rename_i i hi
         have hle := stringsIndex_le _ _ _ hi
         have hlen : ((if l3.doubleDelim = true then closeLiteral2 else closeLiteral1).length : Int) =
@@ -471,7 +486,7 @@ theorem lexLiteral_ok {n : Int} {l : Lexer} (hg : Good n l) :
         have hd0 : 0 ≤ (i : Int) := Int.natCast_nonneg _
         apply Sat.bind
         have hem : Sat (if i > 0 then (l3.addPos ↑i).emit .tText else pure (l3.addPos ↑i))
-            (fun l4 => l4.len = n ∧ 0 ≤ l4.start ∧ l4.start ≤ l4.pos ∧ l4.pos = l3.pos + i) := by
+            (fun l4 => (l4.len = n ∧ (l4.mp : Int) ≤ n ∧ 0 ≤ l4.tagStart ∧ l4.tagStart ≤ n ∧ l4.bad = 0) ∧ 0 ≤ l4.start ∧ l4.start ≤ l4.pos ∧ l4.pos = l3.pos + i) := by
           split
           · em l4 hl4 hp4 hs4 hw4
             exact ⟨by lx, by lx, by lx, by lx⟩
